@@ -6,6 +6,7 @@ import OAuth2Model.Driver.Pkce
 import OAuth2Model.Driver.UrlT
 import OAuth2Model.Driver.SecEq
 import OAuth2Model.Driver.Resp
+import OAuth2Model.Driver.Revoke
 import OAuth2Model.Driver.Tok
 import OAuth2Model.Driver.Err
 import OAuth2Model.Driver.Adapter
@@ -26,6 +27,7 @@ def dispatch (line : String) : String :=
     | "url" => Drv.UrlOp.run args
     | "seceq" => Drv.SecEqOp.run args
     | "resp" => Drv.RespOp.run args
+    | "revoke" => Drv.RevokeOp.run args
     | "tok" => Drv.TokOp.run args
     | "err" => Drv.ErrOp.run args
     | "adp" => Drv.AdapterOp.run args
